@@ -97,11 +97,11 @@ NeedConn(w) == Sock /\ (SendTurn(w) \/ (MaySend /\ cfg.oneShot) \/ AllSilent \/ 
 WillOpen(w)  == \E i \in 1..Len(Trace[tr].opens) : Trace[tr].opens[i] = w
 HasFuture(w) == LastOwned(w) > NSent
 \* an open that will be reported successful must take effect before the listener / the pipe's read end is closed
-OpensPending == \E w \in Writers : wst[w] = "opening" /\ WillOpen(w)
+OpensPending == \E w \in Writers : wst[w] \in {"idle", "opening"} /\ WillOpen(w)
 LandTurn(w)  == WillOpen(w) /\ \A w2 \in Writers : (w2 < w /\ wst[w2] = "opening") => ~WillOpen(w2)
 \* connections worth accepting before the listener closes: those with lines to come, or any if a first
 \* connection is still needed (`started`) or the accept/close race is being explained
-Eligible(w)  == HasFuture(w) \/ ~started \/ DEV_HandlerAddedAfterWait
+Eligible(w)  == HasFuture(w) \/ ~started \/ DEV_HandlerAddedAfterWait \/ (Is("writefail") /\ Ev.w = w)
 AcceptTurn(w) == cfg.oneShot \/ SendTurn(w) \/ \A w2 \in pend : w2 < w => ~Eligible(w2)
 \* steps local to one handler commute with the local steps of every other handler: lowest handler first
 LocalPossible(c) == CanDeadline(c) \/ CanEof(c) \/ CanTimeout(c) \/ h[c].pc = "fin" \/ (Sock /\ CanExit(c))
